@@ -36,6 +36,14 @@ namespace ip {
 	{}
 
 	template<typename Protocol>
+	basic_resolver<Protocol>::~basic_resolver()
+	{
+		// complete outstanding lookups with operation_aborted, as the other
+		// I/O objects do, instead of silently dropping their handlers
+		cancel();
+	}
+
+	template<typename Protocol>
 	basic_resolver<Protocol>::basic_resolver(basic_resolver<Protocol>&&) noexcept = default;
 
 	template<typename Protocol>
